@@ -389,7 +389,19 @@ pub fn unsound_strings(bytes: &[u8]) -> bool {
             Provenance::Canon { cid } => strs.push(cid.get_inner()),
         }
     }
-    let bad = strs.iter().any(|s| s.len() > 4096 || std::str::from_utf8(s.as_bytes()).is_err());
+    // the footprint itself: two reference-counted strings that share one allocation but disagree on its length
+    let mut by_ptr: std::collections::HashMap<usize, usize> = Default::default();
+    let mut shared_mismatch = false;
+    for s in &strs {
+        let ptr = s.as_ptr() as usize;
+        match by_ptr.get(&ptr) {
+            Some(len) if *len != s.len() => shared_mismatch = true,
+            _ => {
+                by_ptr.insert(ptr, s.len());
+            }
+        }
+    }
+    let bad = shared_mismatch || strs.iter().any(|s| s.len() > 4096 || std::str::from_utf8(s.as_bytes()).is_err());
     // never run destructors of possibly unsound values
     std::mem::forget(strs);
     std::mem::forget(data);
